@@ -125,6 +125,24 @@ def validate(c, trace, cases, label):
     return total, steps
 
 
+def inductive(c):
+    """Apalache: IndInv of the pure design is inductive for every K in 1..12 (3 renders) and implies Sound and SoloEqual"""
+    import shutil, time
+    od = os.path.join(c.out, "apalache")
+    steps = (("Init => IndInv", ["--init=Init", "--inv=IndInv", "--length=0"]),
+             ("IndInv /\\ Next => IndInv'", ["--init=IndInit", "--inv=IndInv", "--length=1"]),
+             ("IndInv => Sound /\\ SoloEqual", ["--init=IndInit", "--inv=Goal", "--length=0"]))
+    for what, args in steps:
+        t = time.time()
+        rc, out, err = c.run(["apalache-mc", "check", "--cinit=ConstInit", "--out-dir=" + od] + args + [os.path.join(vf.SPEC, "QRenderInd.tla")], timeout=1800)
+        if "EXITCODE: OK" not in out:
+            raise vf.MachineryError("Apalache did not establish '%s' for QRenderInd: %s" % (what, (out + err)[-400:]))
+        c.cov["tlc_runs"].append({"name": "apalache " + what, "module": "QRenderInd", "cfg": " ".join(args), "distinct": 0, "generated": 0, "wall_s": round(time.time() - t, 1),
+                                  "mode": "apalache-inductive", "result": "ok"})
+        c.log("Apalache %-34s ok  %.1fs" % (what, time.time() - t))
+    shutil.rmtree(od, ignore_errors=True)
+
+
 def main():
     c = vf.Check("C17")
     xasan, tsan = c.build("h_render.xasan", "h_render.tsan")
@@ -133,6 +151,8 @@ def main():
         r = c.tlc("QRender", cfg, timeout=600, workers=4)
         if inv not in r.violated:
             raise vf.MachineryError("%s: the impure design is not rejected by %s" % (cfg, inv))
+    if c.thorough:
+        inductive(c)
     plans = [("QRender_2x4", 60, 0), ("QRender_3x3", 6, 0)]
     if c.thorough:
         plans = [("QRender_2x4", 400, 0), ("QRender_3x3", 40, 0), ("QRender_2x6", 40, 0), ("QRender_3x4", 12, 4000)]
